@@ -507,6 +507,7 @@ def main(argv):
     # SMT-A: the gap finder of overlapping reads, verified from its AST for all bounds
     from checks import C07smt
     C07smt.ob_smt(run)
+    C07smt.ob_sub(run)
     return run.finish()
 
 if __name__ == '__main__':
